@@ -275,6 +275,9 @@ pub struct SimChain {
     /// The first call of the outage is still executed by the node, but the connection is lost while its reply is on
     /// the way: the caller gets a reply cut in the middle (a parse error, not a transport error).
     pub rpc_cut_first: bool,
+    /// The node is not away but warming up (it has just been restarted): the calls of the "outage" are answered with
+    /// the JSON-RPC error -28 instead of failing at the transport level.
+    pub rpc_down_is_warmup: bool,
     /// (n, f): once an outage has been seen and is over, the n-th successful RPC from then on is
     /// the start of another outage of f failed calls.
     pub second_outage: Option<(u64, u64)>,
@@ -325,6 +328,7 @@ impl SimChain {
             rpc_down_from: None,
             rpc_down_failures_left: None,
             rpc_cut_first: false,
+            rpc_down_is_warmup: false,
             second_outage: None,
             rpc_override: None,
             first_outage_seen: false,
@@ -659,10 +663,11 @@ impl SimChain {
                     .map(|t| t.compute_txid()),
                 _ => txid_param(params),
             };
+            let warmup = self.rpc_down_is_warmup;
             self.rpc_log.push(RpcRecord {
                 method: method.to_owned(),
                 txid,
-                verdict: "transport".into(),
+                verdict: if warmup { "err:-28:warming-up".into() } else { "transport".into() },
                 node_height,
             });
             if let Some(n) = self.rpc_down_failures_left {
@@ -673,7 +678,7 @@ impl SimChain {
                     self.rpc_down_failures_left = Some(n - 1);
                 }
             }
-            return Err(RpcFailure::Transport);
+            return Err(if warmup { RpcFailure::Rpc(-28, "Loading block index...".into()) } else { RpcFailure::Transport });
         }
         if let Some((at, code)) = self.rpc_override {
             if at == idx {
